@@ -72,6 +72,8 @@ def yaml_dict(case):
 def _program(c):
     p = dict(t_tot=c["t_tot"], start=c["start"], stop=c["stop"], rate=c["rate"],
              holds=c.get("holds"), cnTemp=c.get("cnTemp"), Frand=c.get("Frand"))
+    if c.get("cn_kind") is not None:
+        p["cn_kind"] = c["cn_kind"]
     if c.get("edit") is not None:
         # "cnTemp-in-place": `S.opcond.cnTemp = <cnTemp of this programme>` on the EXISTING opcond object
         # (the rest of the programme must be that of the previous run)
@@ -110,10 +112,40 @@ def make_opcond(prog):
     cooling = {"rate": prog["rate"], "start": prog["start"], "end": prog["stop"]}
     holds = prog.get("holds")
     holding = None if holds is None else [dict(temp=h[0], duration=h[1]) for h in holds]
+    cn = prog.get("cnTemp")
+    kind = prog.get("cn_kind")
+    if cn is not None and kind == "np0d":
+        cn = np.asarray(float(cn))          # 0-d array, e.g. from np.squeeze
+    elif cn is not None and kind == "np1":
+        cn = np.array([float(cn)])          # 1-element row of a table
     with warnings.catch_warnings():
         warnings.simplefilter("ignore")
-        return OperatingConditions(t_tot=prog["t_tot"], cooling=cooling, holding=holding,
-                                   cnTemp=prog.get("cnTemp"))
+        return OperatingConditions(t_tot=prog["t_tot"], cooling=cooling, holding=holding, cnTemp=cn)
+
+
+def _cn_value(S):
+    """`S.opcond.cnTemp` as a float (None stays None), whatever container it is kept in"""
+    v = S.opcond.cnTemp
+    if v is None:
+        return None
+    return float(np.asarray(v, dtype=float).reshape(-1)[0])
+
+
+def solution_yaml(rng, p=0.6):
+    """a configured solution other than the default (T_eq != 0, other solid fraction) - constants are inputs"""
+    if rng.random() > p:
+        return None
+    y = {"solution": {"T_eq": rng.choice([3.82, -1.5])}}
+    if rng.random() < 0.4:
+        y["solution"]["solid_fraction"] = rng.choice([0.02, 0.1])
+    return y
+
+
+def with_yaml(case, y):
+    if y:
+        base = json.loads(json.dumps(case.get("yaml") or {}))
+        case["yaml"] = _merge(base, json.loads(json.dumps(y)))
+    return case
 
 
 def make_snowing(case, prog=None):
@@ -245,6 +277,8 @@ def run_real(case):
             try:
                 if prog.get("edit") == "cnTemp-in-place":
                     S.opcond.cnTemp = prog.get("cnTemp")
+                elif prog.get("edit") == "rerun-same-opcond":
+                    pass  # a second solver call on the SAME OperatingConditions object
                 else:
                     S.opcond = make_opcond(prog)
                 if prog.get("reconfig"):
@@ -264,7 +298,7 @@ def run_real(case):
         rec = {"Frand": fr if fr is not None else recorded_frand(0)}
         rec["const"], rec["visf"] = constants(S)  # the configuration in force at THIS run
         try:
-            rec["cnTemp_readback"] = None if S.opcond.cnTemp is None else float(S.opcond.cnTemp)
+            rec["cnTemp_readback"] = _cn_value(S)
         except Exception as e:
             rec["cnTemp_readback"] = {"raise": core.exc_class(e)}
         with scripted_frand(fr):
@@ -278,6 +312,10 @@ def run_real(case):
                 rec["raise"] = None
             except Exception as e:
                 rec["raise"] = core.exc_class(e)
+        try:
+            rec["cnTemp_after"] = _cn_value(S)  # the operating conditions must be unchanged by a run
+        except Exception as e:
+            rec["cnTemp_after"] = {"raise": core.exc_class(e)}
         rec["snap"] = snapshot(S)
         # the very objects the accessors handed out after THIS run (no copy) - re-read at the end
         held.append({nm: _raw(S, nm) for nm in ("time", "shelfTemp", "temp", "iceMassFraction")})
@@ -377,7 +415,7 @@ def decode_model(r):
 
 
 RUN_FIELDS = ("dim", "config", "height", "diameter", "yaml", "k_s0", "t_tot", "start", "stop", "rate", "holds",
-              "cnTemp", "Frand", "runs", "Nrep", "how", "then_other")
+              "cnTemp", "Frand", "runs", "Nrep", "how", "then_other", "cn_kind")
 
 
 def source_key(case):
